@@ -55,10 +55,14 @@ def systematic():
                 if B.observe_mod_alias(o) != s or (al is not None and o.__dict__.get("alias") != al):
                     leaks.append(dict(where, what="argument object changed beyond the permitted auto-alias"))
             snap_a = B.observe(a)
+            arg_snaps1 = [(o, B.observe_mod_alias(o), o.__dict__.get("alias")) for o in objs1]
             try:
                 b = f1(r)
             except Exception:
                 b = None
+            for o, s_, al in arg_snaps1:
+                if B.observe_mod_alias(o) != s_ or (al is not None and o.__dict__.get("alias") != al):
+                    leaks.append(dict(where, what="argument object changed beyond the permitted auto-alias", step="b = r.%s(args1)" % name))
             if B.observe(r) != snap_r:
                 leaks.append(dict(where, what="receiver changed by the second call", step="b = r.%s(args1)" % name))
             if B.observe(a) != snap_a:
@@ -66,10 +70,14 @@ def systematic():
                                   step="a = r.%s(args0); b = r.%s(args1)" % (name, name)))
                 snap_a = B.observe(a)
             snap_b = B.observe(b) if b is not None else None
+            arg_snaps2 = [(o, B.observe_mod_alias(o), o.__dict__.get("alias")) for o in objs2]
             try:
                 c = f2(a)
             except Exception:
                 c = None
+            for o, s_, al in arg_snaps2:
+                if B.observe_mod_alias(o) != s_ or (al is not None and o.__dict__.get("alias") != al):
+                    leaks.append(dict(where, what="argument object changed beyond the permitted auto-alias", step="c = a.%s(args2)" % name))
             if B.observe(a) != snap_a:
                 leaks.append(dict(where, what="object changed by a call made on it", step="c = a.%s(args2)" % name))
             if B.observe(r) != snap_r:
